@@ -1043,6 +1043,8 @@ func clientMessage(op scriptOp) []byte {
 			stepID = "initfail" // a step with an initializer (which panics for the first run of a session that asks for it)
 		case "bad_input":
 			cfg = "not a map"
+		case "nil_key_input":
+			cfg = map[any]any{nil: "b", "name": op.Run, "beh": op.Beh}
 		case "no_run":
 			runID = ""
 		case "no_step":
@@ -1065,6 +1067,10 @@ func clientMessage(op scriptOp) []byte {
 			sigID = "nope"
 		case "bad_data":
 			d = map[string]any{"bogus": 1}
+		case "nil_key":
+			d = map[any]any{nil: "b", "name": op.Run} // a CBOR map with a null key: well-formed, wrongly typed
+		case "nil_only_key":
+			d = map[any]any{nil: "b"}
 		case "no_run":
 			runID = ""
 		}
